@@ -23,7 +23,7 @@ fn run_real<R: Ord>(leaf: &Leaf, pop: &Vec<Ind<R>>, rng: &mut SplitMix) -> Strin
             Leaf::Best => Best.select(pop, rng).map_err(|e| e.canon()).and_then(idx),
             Leaf::Worst => Worst.select(pop, rng).map_err(|e| e.canon()).and_then(idx),
             Leaf::Random => Random.select(pop, rng).map_err(|e| e.canon()).and_then(idx),
-            Leaf::Tournament(k) => Tournament::new(NonZeroUsize::new(*k).unwrap()).select(pop, rng).map_err(|e| e.canon()).and_then(idx),
+            Leaf::Tournament(k) => { let t = Tournament::new(NonZeroUsize::new(*k).unwrap()); let mut w = rng.clone(); warm_up(&t, pop, &mut w); t.select(pop, rng).map_err(|e| e.canon()).and_then(idx) }
             _ => unreachable!(),
         }
     }));
